@@ -429,9 +429,9 @@ Proof.
   split.
   { exists h'. split; [reflexivity|].
     destruct (N.eq_dec rb 0) as [Erb|Erb].
-    - rewrite (Hh0 Erb). repeat (split; [reflexivity|]). split; [intros _; reflexivity | intros; contradiction].
+    - rewrite (Hh0 Erb). do 7 (split; [reflexivity|]). split; [intros _; reflexivity | intros; contradiction].
     - destruct (Hh1 Erb) as (s1' & ser & Hq & Hser & Hsereq & Hh').
-      rewrite Hh'. repeat (split; [reflexivity|]). split; [intros; contradiction|]. intros _.
+      rewrite Hh'. do 7 (split; [reflexivity|]). split; [intros; contradiction|]. intros _.
       assert (Hq' : query_actual_state w A_hub h0 = Some s1').
       { rewrite <- Hq. symmetry. apply qas_ext; [|reflexivity|reflexivity].
         apply all_delegations_ext. exact Hd1. }
@@ -447,11 +447,11 @@ Proof.
   split. { rewrite Hbal2, Eub, !N.eqb_refl. reflexivity. }
   split.
   { intros d. rewrite Hbal2. change (A_hub =? A_disp) with false. change (A_hub =? A_reward) with false.
-    assert (Ek : (A_hub =? keeper) = false) by (apply N.eqb_neq; congruence). rewrite Ek.
+    assert (Ek : (A_hub =? keeper) = false) by (apply N.eqb_neq; intros E; apply Hk2; symmetry; exact E). rewrite Ek.
     rewrite !N.add_0_r. destruct (d =? bd); [|destruct (d =? usei)]; apply Hbal1; discriminate. }
   split.
   { rewrite Hbal2, !N.eqb_refl. change (A_reward =? A_disp) with false.
-    assert (Ek : (A_reward =? keeper) = false) by (apply N.eqb_neq; congruence). rewrite Ek.
+    assert (Ek : (A_reward =? keeper) = false) by (apply N.eqb_neq; intros E; apply Hk3; symmetry; exact E). rewrite Ek.
     rewrite Hbal1 by discriminate. lia. }
   assert (Ekd : (keeper =? A_disp) = false) by (apply N.eqb_neq; exact Hk1).
   assert (Ekr : (keeper =? A_reward) = false) by (apply N.eqb_neq; exact Hk3).
